@@ -362,31 +362,33 @@ static void alias_case(uint64_t idx, void *vctx)
     static const int ops[4] = { PIXMAN_OP_OVER, PIXMAN_OP_SRC, PIXMAN_OP_ADD, PIXMAN_OP_IN_REVERSE };
     static const int offs[3] = { 0, 1, 3 };
     int fam = (int)(idx % 2); idx /= 2; int di = (int)(idx % 5); idx /= 5; int oi = (int)(idx % 4); idx /= 4; int sx = offs[idx % 3]; idx /= 3; int mx = offs[idx % 3]; idx /= 3;
-    int cfg = (idx % 2) ? PH_CFG_GENERAL : PH_CFG_DEFAULT; idx /= 2; int w = (idx % 2) ? 19 : 4;
+    int cfg = (idx % 2) ? PH_CFG_GENERAL : PH_CFG_DEFAULT; idx /= 2; int w = (idx % 2) ? 19 : 4; idx /= 2;
+    int sy = (int)(idx % 2); idx /= 2; int my = (int)(idx % 2);          /* the shared storage has two rows: the origins may differ in y as well */
     enum { W = 32 };
-    uint32_t buf[W]; for (int i = 0; i < W; i++) buf[i] = B8[(i * 5) % 12] << 24 | B8[(i * 7 + 1) % 12] << 16 | B8[(i * 11 + 2) % 12] << 8 | B8[(i * 3 + 5) % 12];
+    uint32_t buf2[2 * W]; for (int i = 0; i < 2 * W; i++) buf2[i] = B8[(i * 5) % 12] << 24 | B8[(i * 7 + 1) % 12] << 16 | B8[(i * 11 + 2) % 12] << 8 | B8[(i * 3 + 5) % 12];
+    const uint32_t *bufs = buf2 + sy * W, *bufm = buf2 + my * W;
     ph_fmt_t sf, mf, df; ph_fmt_describe(sfm[fam], "", &sf); ph_fmt_describe(mfm[fam], "", &mf); ph_fmt_describe(dfm[di], dfn[di], &df);
     uint32_t dbuf[W], d0[W]; memset(dbuf, 0, sizeof dbuf);
     for (int i = 0; i < W; i++) { uint32_t v = B8[(i * 7 + 3) % 12] << 24 | B8[(i + 4) % 12] << 16 | B8[(i * 5 + 6) % 12] << 8 | B8[(i * 9) % 12]; ph_put_pixel(dbuf, df.bpp, i, ph_from_8888(&df, v)); }
     memcpy(d0, dbuf, sizeof d0);
     ph_set_cfg(cfg);
-    pixman_image_t *src = pixman_image_create_bits(sfm[fam], W, 1, buf, W * 4), *msk = pixman_image_create_bits(mfm[fam], W, 1, buf, W * 4);
+    pixman_image_t *src = pixman_image_create_bits(sfm[fam], W, 2, buf2, W * 4), *msk = pixman_image_create_bits(mfm[fam], W, 2, buf2, W * 4);
     pixman_image_t *dst = pixman_image_create_bits(dfm[di], W, 1, dbuf, W * 4);
-    pixman_image_composite32(ops[oi], src, msk, dst, sx, 0, mx, 0, 2, 0, w, 1);
+    pixman_image_composite32(ops[oi], src, msk, dst, sx, sy, mx, my, 2, 0, w, 1);
     vf_count_libcalls(1);
     pixman_image_unref(src); pixman_image_unref(msk); pixman_image_unref(dst);
     char cfgn[64]; uint32_t dm = ph_defined_mask(&df); uint64_t nt = 0;
     for (int i = 0; i < W; i++) {
         uint32_t got = ph_get_pixel(dbuf, df.bpp, i), before = ph_get_pixel(d0, df.bpp, i), exp = before;
         if (i >= 2 && i < 2 + w) {
-            uint32_t s8 = ph_to_8888(&sf, buf[i - 2 + sx]), m8 = ph_to_8888(&mf, buf[i - 2 + mx]), d8 = ph_to_8888(&df, before);
+            uint32_t s8 = ph_to_8888(&sf, bufs[i - 2 + sx]), m8 = ph_to_8888(&mf, bufm[i - 2 + mx]), d8 = ph_to_8888(&df, before);
             exp = ph_from_8888(&df, rc_exact_pixel(ops[oi], RC_MASK_UNIFIED, s8, m8, d8));
             if ((got & dm) != (before & dm)) nt++;
         } else dm = (df.bpp == 32) ? 0xffffffffu : ((1u << df.bpp) - 1), dm = dm;
         uint32_t cmpmask = (i >= 2 && i < 2 + w) ? ph_defined_mask(&df) : (df.bpp == 32 ? 0xffffffffu : ((1u << df.bpp) - 1));
         if ((got & cmpmask) != (exp & cmpmask)) {
-            vf_violation("c01-shared-storage-source-mask", "op=%s dest %s, source %s and mask %s over the SAME storage, src_x=%d mask_x=%d width=%d cfg=[%s]: destination pixel %d = %x, equations give %x",
-                         rc_op_name(ops[oi]), dfn[di], fam ? "x8r8g8b8" : "x8b8g8r8", fam ? "a8r8g8b8" : "a8b8g8r8", sx, mx, w, ph_cfg_name(cfg, cfgn, sizeof cfgn), i, got, exp);
+            vf_violation("c01-shared-storage-source-mask", "op=%s dest %s, source %s and mask %s over the SAME storage, source origin (%d,%d) mask origin (%d,%d) width=%d cfg=[%s]: destination pixel %d = %x, equations give %x",
+                         rc_op_name(ops[oi]), dfn[di], fam ? "x8r8g8b8" : "x8b8g8r8", fam ? "a8r8g8b8" : "a8b8g8r8", sx, sy, mx, my, w, ph_cfg_name(cfg, cfgn, sizeof cfgn), i, got, exp);
             return;
         }
     }
@@ -583,7 +585,7 @@ int main(int argc, char **argv)
         }
     }
     vf_space_run("format-triples", fmt_total, fmt_case_all, NULL);
-    vf_space_run("shared-storage-source-and-mask", 2 * 5 * 4 * 3 * 3 * 2 * 2, alias_case, NULL);
+    vf_space_run("shared-storage-source-and-mask", 2 * 5 * 4 * 3 * 3 * 2 * 2 * 2 * 2, alias_case, NULL);
     vf_space_run("solid-fill-sources-16bit", (uint64_t)RC_NOPS * 11 * 3 * 4 * 3 * 2, solid_case, NULL);
     vf_bounds = th ? "exact: 13 ops x {none: full 2^32 (sc,sa,dc,da); unified: (sc,sa,ma) full 2^24 x (dc,da) in B8^2 + alpha cube; CA: (sc,mc,ma) full 2^24 x (sa,dc,da) in B6^3 and (sc,sa,mc) full 2^24 x (dc,da) in T^2 x ma in B6 [default chain; boundary alphabets under general-only]}; "
                      "tolerance: 40 ops x 3 modes x B8^4..6 + full (sa,da) plane; formats: 53 ops x 17x17 format pairs x 5 mask presentations x per-channel {0,1,mid,max-1,max} (first 2048 strips of 128), and again with the source / the mask delivered by the transformed-image fetchers (first 512 strips, mask value fastest), and with REPEAT_NORMAL set on alpha-less destinations / sources (operator reduction); cfgs default+general"
